@@ -387,7 +387,7 @@ namespace BitSerializer::Convert::Detail
 				if (utc.SecFractions) {
 					pos = PrintSecondsFractions(pos, endPos, utc.SecFractions.value());
 				}
-				if (pos != endPos)
+				if (pos != nullptr && pos != endPos)
 				{
 					*pos++ = 'Z';
 					return pos;
